@@ -6,6 +6,7 @@ import VProofs.C06
 import VProofs.C15
 import VProofs.Lemmas.UtfSync
 import VProofs.Lemmas.SafeOps
+import VProofs.Lemmas.SafeWindow0
 /-!
 # C18 — No input drives the unchecked code out of bounds
 
@@ -59,6 +60,121 @@ theorem C18_history_safe (env : List Predictor) (henv : EnvWF env) (ops : List H
       obtain ⟨s2, h3, h4⟩ := ih s1 h2 (hr.2 s1 ok h1)
       exact ⟨s2, by simp only [runHistory, h1, h3], h4⟩
   exact main ops _ (C18L.invH_default env) hv
+
+/-! ## the same for window size 0
+
+`EnvWF` asks for `WFModel`, i.e. both windows at least 1.  Predictors built from models with `--charw 0` and/or `--typew 0`
+(`WFModel0`: the n-grams of a switched-off kind are arbitrary, they are ignored) are covered by the theorem below, of which
+`C18_history_safe` is the special case (`EnvWF.toEnvWF0`). -/
+
+/-- as `EnvWF`, with window sizes 0..255 -/
+def EnvWF0 (env : List Predictor) : Prop :=
+  ∀ p ∈ env, ∃ cfg m pt p0 store, WFModel0 m ∧ WFTags m ∧ Predictor.new cfg m pt = .ok p0 ∧
+    p = { p0 with storeTagScores := store }
+
+/-- every environment of `C18_history_safe` is one of `C18_history_safe_window0` -/
+theorem EnvWF.toEnvWF0 {env : List Predictor} (h : EnvWF env) : EnvWF0 env :=
+  fun p hp => C18L.PredWF.toPredWF0 (h p hp)
+
+/-- **every valid history on one sentence object runs to completion, windows 0..255**: as `C18_history_safe`, for predictors
+built from models that are well-formed up to the n-grams of switched-off kinds -/
+theorem C18_history_safe_window0 (env : List Predictor) (henv : EnvWF0 env) (ops : List HOp)
+    (hv : ValidRun env Sentence.default ops) : ∃ s, runHistory env Sentence.default ops = .ok s ∧ Inv s := by
+  have hvalid : ∀ (s : Sentence) (op : HOp), op.Valid env s → C18L.OpValid env s op := fun s op h => by
+    cases op <;> exact h
+  have main : ∀ (ops : List HOp) (s : Sentence), C18L.InvH env s → ValidRun env s ops →
+      ∃ s', runHistory env s ops = .ok s' ∧ Inv s' := by
+    intro ops
+    induction ops with
+    | nil => exact fun s h _ => ⟨s, rfl, h.1⟩
+    | cons op ops ih =>
+      intro s h hr
+      obtain ⟨s1, ok, h1, h2⟩ := C18L.step_safe0 henv h op (hvalid s op hr.1)
+      obtain ⟨s2, h3, h4⟩ := ih s1 h2 (hr.2 s1 ok h1)
+      exact ⟨s2, by simp only [runHistory, h1, h3], h4⟩
+  exact main ops _ (C18L.invH_default env) hv
+
+/-- `C18_history_safe` as a corollary -/
+theorem C18_history_safe_of_window0 (env : List Predictor) (henv : EnvWF env) (ops : List HOp)
+    (hv : ValidRun env Sentence.default ops) : ∃ s, runHistory env Sentence.default ops = .ok s ∧ Inv s :=
+  C18_history_safe_window0 env henv.toEnvWF0 ops hv
+
+/-! ### non-vacuity: an environment of two predictors with zero windows — `C01_exModel0` (character window 0, ill-shaped
+character n-grams that are ignored; built with tag prediction) and `C06_exModel00` (both windows 0; built without) — and a
+history that uses both, `fill_tags`, the mutable slices and a filter -/
+
+/-- `ValidRun` as a Boolean (validity of each call in the state it is issued in; nothing is asked after a call that does not
+return) -/
+def C18_validRunB (env : List Predictor) : Sentence → List HOp → Bool
+  | _, [] => true
+  | s, op :: ops => C18L.opValidB env s op &&
+    match op.apply env s with
+    | .ok (s', _) => C18_validRunB env s' ops
+    | _ => true
+
+theorem C18_validRunB_sound (env : List Predictor) (s : Sentence) (ops : List HOp)
+    (h : C18_validRunB env s ops = true) : ValidRun env s ops := by
+  induction ops generalizing s with
+  | nil => trivial
+  | cons op ops ih =>
+    simp only [C18_validRunB, Bool.and_eq_true] at h
+    refine ⟨?_, fun s' ok hap => ?_⟩
+    · have := C18L.opValidB_sound env s op h.1
+      cases op <;> exact this
+    · have h2 := h.2
+      rw [hap] at h2
+      exact ih s' h2
+
+def C18_exEnv0 : List Predictor :=
+  match Predictor.new {} C01_exModel0 true, Predictor.new {} C06_exModel00 false with
+  | .ok p, .ok q => [{ p with storeTagScores := true }, q]
+  | _, _ => []
+
+def C18_exOps0 : List HOp :=
+  [.updateRaw ['a', 'b', 'a'], .predict 0, .fillTags, .setBoundary 0 B.W, .fillTags, .filterGc [1, 2], .predict 1,
+   .setTag 0 none, .updateRaw [], .predict 0, .resetTags 1]
+
+example : C18_exEnv0.length = 2 := by decide
+
+example : EnvWF0 C18_exEnv0 := by
+  have w1 : WFModel0 C01_exModel0 :=
+    { charW_le := by decide, typeW_le := by decide, char_nodup := by decide, char_shape := by decide,
+      type_nodup := by decide, type_shape := by decide, dict_nodup := by decide, dict_shape := by decide }
+  have w2 : WFModel0 C06_exModel00 :=
+    { charW_le := by decide, typeW_le := by decide, char_nodup := by decide, char_shape := by decide,
+      type_nodup := by decide, type_shape := by decide, dict_nodup := by decide, dict_shape := by decide }
+  have t1 : WFTags C01_exModel0 := ⟨by decide, by decide, by decide, by decide⟩
+  have t2 : WFTags C06_exModel00 := ⟨by decide, by decide, by decide, by decide⟩
+  intro p hp
+  unfold C18_exEnv0 at hp
+  split at hp
+  · next p0 q0 e1 e2 =>
+    rcases List.mem_cons.mp hp with rfl | hp
+    · exact ⟨{}, _, true, p0, true, w1, t1, e1, rfl⟩
+    · rcases List.mem_cons.mp hp with rfl | hp
+      · exact ⟨{}, _, false, p, p.storeTagScores, w2, t2, e2, rfl⟩
+      · cases hp
+  · cases hp
+
+/-- neither model is a `WFModel` (the witnesses above are outside the reach of `C18_history_safe`) -/
+example : ¬ WFModel C01_exModel0 ∧ ¬ WFModel C06_exModel00 :=
+  ⟨fun h => absurd h.charW_pos (by decide), fun h => absurd h.charW_pos (by decide)⟩
+
+/-- `hv`: every call of the history is valid in the state it is issued in -/
+example : ValidRun C18_exEnv0 Sentence.default C18_exOps0 := C18_validRunB_sound _ _ _ (by decide)
+
+/-- the conclusion on the example: the history runs to completion; after the first `fill_tags` the sentence carries the
+boundaries and tags of the specification (`C01.lean`, `C06.lean`), after the second the tags for the boundaries put in -/
+example : (runHistory C18_exEnv0 Sentence.default C18_exOps0).isOk = true := by decide
+example : (runHistory C18_exEnv0 Sentence.default (C18_exOps0.take 3)).map (fun s => (s.bounds, s.tags))
+    = .ok ([B.N, B.W], [none, none, some ['y']]) := by decide
+example : (runHistory C18_exEnv0 Sentence.default (C18_exOps0.take 5)).map (fun s => (s.bounds, s.tags))
+    = .ok ([B.W, B.W], [some ['y'], none, some ['y']]) := by decide
+/-- a call that is not valid (`fill_tags` after `predict` with the second predictor, built without tag prediction) is
+rejected by the checker, and indeed does not return -/
+example : C18_validRunB C18_exEnv0 Sentence.default [.updateRaw ['a', 'b', 'a'], .predict 1, .fillTags] = false := by decide
+example : (runHistory C18_exEnv0 Sentence.default [.updateRaw ['a', 'b', 'a'], .predict 1, .fillTags]).isOk = false := by
+  decide
 
 /-! ## byte-level preconditions -/
 
